@@ -150,7 +150,7 @@ def run_case(kind, idx, rng, sh):
         else:
             secs.append(elfgen.Sec('.gnu.version_r', 0x6ffffffe, flags=2, data=bytes(buf), link='.dynstr',
                                    info=nent, align=4))
-    vers = [rng.choice([0, 1, 2, 3, 0x8002, 0x8004, 0xff00, 0xff01, 0xffff, rng.getrandbits(16)]) for _ in range(nsym)]
+    vers = [rng.choice([0, 1, 2, 3, 0x8002, 0x8004, 0xff00, 0xff01, 0xffff, 0x7fff, 0x7ffe, 0x8000, 0x8001, 0xfeff, rng.getrandbits(16)]) for _ in range(nsym)]
     if kind == 'versym' and nsym >= 3 and rng.random() < 0.1:
         # the table's own size says how many entries it has, even where the symbol table holds more
         vers = vers[:nsym - rng.choice([1, 2])]
@@ -221,7 +221,17 @@ def run_case(kind, idx, rng, sh):
         return
     pattern = rng.choice(['nested', 'outer-first', 'partial'])
     poison([st], rng)
-    if pattern == 'nested':
+    early_has = kind == 'verneed' and rng.random() < 0.5
+    if early_has:
+        # asked before anything else on this object (a walk that may stop at the first index it meets)
+        if sec.has_indexes() != any(a['other'] for p in plan for a in p['aux']):
+            sh.violation('C15:has_indexes (first query on the object)')
+            return
+        if rng.random() < 0.5:
+            pattern = 'none'        # straight on to the index resolution
+    if pattern == 'none':
+        got = want
+    elif pattern == 'nested':
         got = [(dig_e(v), [dig_a(a) for a in P(it)]) for v, it in P(sec.iter_versions())]
     elif pattern == 'outer-first':
         outer = [(v, it) for v, it in P(sec.iter_versions())]
